@@ -149,4 +149,77 @@ Proof.
     exists (S m). cbn [arn exec_named]. rewrite Hla, Hlb, Hop. exact Hm.
   - cbn [cont] in Hrun. exists 1. cbn [arn exec_named]. rewrite Hla, Hlb, Hop. exact Hrun.
 Qed.
+
+(* the covariable of an integer continuation: a closure that understands Ret *)
+Lemma erel_cont : forall n (need : cident -> Prop) pi A G e ae b cv,
+  erel p q n need pi A G e ae -> NoDup (cids G) -> fbound G b CCns CI64 = None -> need b ->
+  CoreSem.clookup e b = Some cv ->
+  In (idn (pi b)) A /\
+  exists kv tn cls ce, cv = BK kv /\ lookup ae (idn (pi b)) = Some (VClo tn cls ce) /\ cloR p q n CCns CI64 cv (VClo tn cls ce).
+Proof.
+  intros n need pi A G e ae b cv He Hnd Hb Hn Hl.
+  destruct (erel_var p q _ _ _ _ _ _ _ _ _ _ _ He Hnd Hb Hn Hl) as (Hin & av & Hla & Hv). split; [exact Hin|].
+  destruct (vrel_kind_bk _ _ _ _ _ _ Hv) as [kv ->].
+  destruct (vrel_clo_inv _ _ _ _ _ _ _ Hv I) as (tn & cls & ce & -> & Hc). eauto 10.
+Qed.
+
+(* <n | a> : literal n x'; invoke a Ret(x') *)
+Lemma fl_lit_var : forall n, IHn n -> forall z ty c b t', FLs p q n (FsCut (FsLit z) ty (FsXVar c b t')).
+Proof.
+  intros n IH z ty c b t'. start. cbn [rn_stmt rn_term shrink_step shrink_cut] in Hsh; unfold shrink_identifier, fresh_var, fresh_identifier in Hsh.
+  invsh Hsh.
+  rewrite check_stmt_cut_eq in Hck. apply seq_none in Hck as [Hty Hck]. apply seq_none in Hck as [Hcp Hck].
+  cbn [check_term] in Hcp. apply seq_none in Hcp as [_ Hcp]. apply fensure_none in Hcp. apply cty_eqb_eq_i64 in Hcp. subst ty.
+  cbn [check_term] in Hck. apply seq_none in Hck as [_ Hck]. apply seq_none in Hck as [_ Hck].
+  cbn [pfresh] in Hpf. apply andb_prop in Hpf as [Hpx _]. apply negb_memN_notin in Hpx.
+  cbn [CoreSem.fs2c_stmt CoreSem.fs2c_term] in Hrun. core_step Hrun Hg n. cbn [CoreSem.khead] in Hrun.
+  destruct (CoreSem.clookup e b) as [cv|] eqn:Hl; [|cbn [cont] in Hrun; exfalso; eapply cont_stuck; eauto].
+  destruct (erel_cont _ _ _ _ _ _ _ _ _ He (inv_nd _ _ _ _ _ Hinv) Hck ltac:(cbn [occurs occ_term]; tauto) Hl)
+    as (Hin & kv & tn & cls & ce & -> & Hla & Hc).
+  cbn [CoreSem.cut_with_k] in Hrun.
+  destruct (invoke_clo p q n CCns CI64 (BK kv) tn cls ce ret_name [VInt z] (CoreSem.interact_val (PInt z) kv) out r Hc) as (cl & e1 & m & Hf & Hb & Hm); [| exact Hrun | exact Hg |].
+  { exists z. auto. }
+  set (x' := ("x"%string, N.succ (s_max st))) in *.
+  assert (Hx' : th x' = x').
+  { apply (inv_th _ _ _ _ _ Hinv). intros Hin'. apply (inv_le _ _ _ _ _ Hinv) in Hin'. pose proof (inv_st _ _ _ _ _ Hinv). cbn [cid_id snd x'] in Hin'. lia. }
+  exists (S (S m)). cbn [arn exec_named invoke_ret]. unfold arn_ctx, arn_binding, vars, shrink_identifier. cbn [map bvar bchi bty]. rewrite Hx'.
+  unfold lookup_id. cbn [lookup].
+  destruct (N.eqb (idn x') (idn (th (rho b)))) eqn:E; [apply N.eqb_eq in E; exfalso; apply Hpx; rewrite E; exact Hin|].
+  rewrite Hla, Hf. cbn [lookups]. unfold lookup_id. cbn [lookup]. unfold vars in Hb. rewrite N.eqb_refl, Hb. exact Hm.
+Qed.
+
+(* <a op b | k> : op a o b x'; invoke k Ret(x') *)
+Lemma fl_op_var : forall n, IHn n -> forall a o b ty c v t', FLs p q n (FsCut (FsOp a o b) ty (FsXVar c v t')).
+Proof.
+  intros n IH a o b ty c v t'. start. cbn [rn_stmt rn_term shrink_step shrink_cut] in Hsh; unfold shrink_identifier, fresh_var, fresh_identifier in Hsh.
+  invsh Hsh.
+  rewrite check_stmt_cut_eq in Hck. apply seq_none in Hck as [Hty Hck]. apply seq_none in Hck as [Hcp Hck].
+  cbn [check_term] in Hcp. apply seq_none in Hcp as [_ Hcp]. apply seq_none in Hcp as [Hi Hcp].
+  apply fensure_none in Hi. apply cty_eqb_eq_i64 in Hi. subst ty. apply seq_none in Hcp as [Hca Hcb].
+  cbn [check_term] in Hck. apply seq_none in Hck as [_ Hck]. apply seq_none in Hck as [_ Hck].
+  cbn [pfresh] in Hpf. apply andb_prop in Hpf as [Hpx _]. apply negb_memN_notin in Hpx.
+  cbn [CoreSem.fs2c_stmt CoreSem.fs2c_term] in Hrun. core_step Hrun Hg n.
+  apply arg_int_step in Hrun as (n1 & pv & -> & Hl & Hrun); [|exact Hg].
+  destruct (erel_int p q _ _ _ _ _ _ _ _ _ He (inv_nd _ _ _ _ _ Hinv) Hca ltac:(cbn [occurs occ_term]; tauto) Hl) as (za & Epv & Hla); injection Epv as ->.
+  core_step Hrun Hg n1.
+  apply arg_int_step in Hrun as (n2 & pv & -> & Hl2 & Hrun); [|exact Hg].
+  destruct (erel_int p q _ _ _ _ _ _ _ _ _ He (inv_nd _ _ _ _ _ Hinv) Hcb ltac:(cbn [occurs occ_term]; tauto) Hl2) as (zb & Epv & Hlb); injection Epv as ->.
+  core_step Hrun Hg n2. rewrite ax_binop_shrink in Hrun.
+  set (x' := ("x"%string, N.succ (s_max st))) in *.
+  assert (Hx' : th x' = x').
+  { apply (inv_th _ _ _ _ _ Hinv). intros Hin'. apply (inv_le _ _ _ _ _ Hinv) in Hin'. pose proof (inv_st _ _ _ _ _ Hinv). cbn [cid_id snd x'] in Hin'. lia. }
+  destruct (eval_op (shrink_binop o) za zb) as [z|why] eqn:Hop.
+  - core_step Hrun Hg n2. cbn [CoreSem.khead] in Hrun.
+    destruct (CoreSem.clookup e v) as [cv|] eqn:Hlv; [|cbn [cont] in Hrun; exfalso; eapply cont_stuck; eauto].
+    destruct (erel_cont _ _ _ _ _ _ _ _ _ He (inv_nd _ _ _ _ _ Hinv) Hck ltac:(cbn [occurs occ_term]; tauto) Hlv)
+      as (Hin & kv & tn & cls & ce & -> & Hlav & Hc).
+    eapply cloR_le with (k := S n2) in Hc; [|lia].
+    destruct (invoke_clo p q n2 CCns CI64 (BK kv) tn cls ce ret_name [VInt z] (CoreSem.interact_val (PInt z) kv) out r Hc) as (cl & e1 & m & Hf & Hb & Hm); [| exact Hrun | exact Hg |].
+    { exists z. auto. }
+    exists (S (S m)). cbn [arn exec_named invoke_ret]. unfold arn_ctx, arn_binding, vars, shrink_identifier. cbn [map bvar bchi bty]. rewrite Hx', Hla, Hlb, Hop.
+    unfold lookup_id. cbn [lookup].
+    destruct (N.eqb (idn x') (idn (th (rho v)))) eqn:E; [apply N.eqb_eq in E; exfalso; apply Hpx; rewrite E; exact Hin|].
+    rewrite Hlav, Hf. cbn [lookups]. unfold lookup_id. cbn [lookup]. unfold vars in Hb. rewrite N.eqb_refl, Hb. exact Hm.
+  - cbn [cont] in Hrun. exists 1. cbn [arn exec_named]. rewrite Hla, Hlb, Hop. exact Hrun.
+Qed.
 End CasesA.
